@@ -120,6 +120,8 @@ def e2e_cases(run):
     lines += gen_block.e2e_sched_random(r, 6000 if quick else 30000)
     lines += gen_block.e2e_two_uploads(r, 800 if quick else 8000)
     lines += gen_block.e2e_slow(r, 120 if quick else 1500)
+    lines += gen_block.e2e_wide(r, 600 if quick else 8000)
+    lines += gen_block.e2e_two_downloads(r, 500 if quick else 6000)
     return lines
 
 
@@ -202,6 +204,8 @@ def e2e(run, model):
         run.hist("e2e_sched", "lossless" if case.lossless() else "faulty")
         run.hist("e2e_len", "0" if case.len == 0 else "<=1024" if case.len <= 1024 else
                  "<=8192" if case.len <= 8192 else ">8192")
+        for o in case.opts:
+            run.hist("e2e_option", o + ("=" + case.opts[o] if o in ("meth", "tok") else ""))
         run.hist("e2e_outcome", "delivered" if (" HS:3:" in out and case.dir in ("b1", "b11")) or
                  (" HC:69:" in out and case.dir == "b2") else "not-delivered")
         if i % 397 == 5:
@@ -228,7 +232,7 @@ def peer(run, model):
     cases = []
     rp = replay_lines(run)
     for l in (vlib.read_corpus("C09") if rp is None else rp):
-        if l.startswith("peer "):
+        if l.startswith("peer ") and not l.startswith("peer g2 "):
             t = l.split()
             cases.append((l, "blkpeer %s %s %s %s %s" % (t[1], t[2], t[3], "0" if t[4] == "7" else t[4],
                                                         " ".join(t[6:]))))
@@ -281,6 +285,38 @@ def peer(run, model):
                 small = " ".join(d.split()[:6] + [o[0] for o in ops]) if ops else d
                 run.violation(what, "case: %s\nmodel case: %s\nmodel: %s\nimpl : %s\n(shrunk: %s)\n" %
                               (d, m, a, b, small), tag="peer%d" % nbad, no_input=True)
+    # the download side: raw GETs with Block2 and different queries into the real server; every
+    # block it returns for "?v=n" must be a block of body n (oracle on the implementation alone)
+    g2 = [l for l in (vlib.read_corpus("C09") if rp is None else rp) if l.startswith("peer g2 ")]
+    if rp is None:
+        g2 += gen_block.peer_g2_cases(r, 1500 if quick else 20000)
+    go, gcr = vlib.run_lines_robust(drv, g2, timeout=1500) if g2 else ([], [])
+    gm = []
+    for d in g2:
+        t = d.split()
+        gm.append("blkpeerg2 %s %s %s %s" % (t[2], t[3], "0" if t[4] == "7" else t[4], " ".join(t[5:])))
+    gmo, _ = vlib.run_lines_robust(model, gm, timeout=1500) if gm else ([], [])
+    ng2 = 0
+    ng2tie = 0
+    for d, b, mline, mo_ in zip(g2, go, gm, gmo):
+        if mo_ != b:
+            ng2tie += 1
+            if ng2tie <= 2:
+                run.violation("scripted GET peer: the server's replies differ from the lg_xmit table model",
+                              "case: %s\nmodel case: %s\nmodel: %s\nimpl : %s\n" % (d, mline, mo_, b),
+                              tag="peerg2tie%d" % ng2tie, no_input=True)
+        run.count(d, b.count("R:69") >= 3)
+        run.hist("peer_dir", "g2")
+        if ":!" in b or b.startswith("CRASH") or "END" not in b:
+            ng2 += 1
+            if ng2 <= 2:
+                run.violation("the server answered a Block2 GET with bytes that are not the body for that "
+                              "request's query (stored large responses of different queries were confused)"
+                              if ":!" in b else "scripted GET peer: driver crashed",
+                              "case: %s\nimpl : %s\n" % (d, b), tag="peerg2_%d" % ng2)
+    run.cov["peer_g2_cases"] = len(g2)
+    run.cov["peer_g2_wrong"] = ng2
+    run.cov["peer_g2_tie_disagreements"] = ng2tie
     run.cov["peer_cases"] = len(cases)
     run.cov["peer_honest_cases"] = ncons
     run.cov["peer_mixed_deliveries"] = nmix
